@@ -119,6 +119,14 @@ claim('C15', 'interprocedural may-mutate / may-alias effect analysis (alias sets
       'Writes hidden in user-supplied callables and sharing of mutable metadata values are not decided.',
       'Assumes the frozen effect tables of sa/effects.py (which builtin / NumPy calls write in place, return views or copies) and that unknown callables do not write their arguments.', 'DESIGN.md §3 C15')
 
+claim('C16', 'exhaustive finite decision tables of the attribute routing (2^6 atoms x 3 methods x 3 classes) + metadata provenance (must / may) over every DimArray-typed return of the listed operations',
+      'Decides C16 almost completely at the structural level: reading, assigning and deleting an attribute is routed to attrs / axis labels / plain attribute / AttributeError '
+      'exactly as the statement dictates for every combination of (underscore, excluded, included, class member, dimension, key of attrs) on DimArray, Dataset and Axis; '
+      'the attrs setter replaces, the deleter clears, constructors store a fresh dict; every propagating operation returns an array that carries the source metadata on all '
+      'paths and metadata never travels through the argument channel of __init__; arithmetic, comparisons, stack and concatenate build results without operand metadata; '
+      'Axis slicing/take/cast/union keep axis metadata. The semantics of dict.update is trusted.',
+      'Assumes dict.update semantics and that hasattr(cls, name) defines class membership.', 'DESIGN.md §3 C16')
+
 UNDER_CONSTRUCTION = 'checker under construction in this session (claimed in DESIGN.md, not yet registered)'
 for pid in ['C01', 'C03', 'C04', 'C05', 'C06', 'C07', 'C08', 'C09', 'C10', 'C11', 'C12', 'C13', 'C14', 'C15', 'C16',
             'C17', 'C18', 'C19']:
